@@ -525,10 +525,10 @@ UNIT = dict(
                        "shifted windows are computed without overflow and every shifted window lies inside the temp image"),
             dict(name="k8_shift_vertical_bounds", kind="complete", timeout=900, props=["C03", "C01"],
                  claim="same for the vertical bounds of the non-u8 path"),
-            dict(name="formm_u8_3x3_to_2x2_any_windows", kind="bounded", timeout=3600, tier="thorough", props=["C03"],
+            dict(name="formm_u8_3x3_to_2x2_any_windows", kind="bounded", timeout=3600, tier="dev", props=["C03"],
                  bound="U8 3x3 -> 2x2 view in 4x4 parent, two passes, ANY WinInv tables (1..=2 taps), any taps, stale scratch buffer",
                  claim="no out-of-bounds access / overflow / panic for window tables about which only WinInv is known (custom filters); frame"),
-            dict(name="formm_u8_3x3_to_2x2_ordered_windows", kind="bounded", timeout=3600, tier="thorough", props=["C05", "C03", "C09"],
+            dict(name="formm_u8_3x3_to_2x2_ordered_windows", kind="bounded", timeout=3600, tier="dev", props=["C05", "C03", "C09"],
                  bound="same, window starts/ends non-decreasing (built-in filters)",
                  claim="frame: parent bytes outside the dst rectangle and the source are unchanged; no panic"),
             dict(name="formm_u8_3x2_to_2x2_horizontal_only", kind="bounded", timeout=2400, tier="thorough", props=["C05", "C12", "C03"],
